@@ -5,6 +5,8 @@ from symx import loader
 from symx.poly import PolyInt, SE, sympy_to_z3
 
 PID = "C12"
+TECHNIQUE = 'the real field kernels and Element.add run on integer-polynomial proxies; z3 decides the cross-multiplied Edwards-law identities (with sympy cofactor certificates modulo the curve equations) at the real 255-bit constants'
+LEVEL_NOTE = "mod erasure (Z -> Z/Q ring homomorphism); Bernstein-Lange final step; Euler's criterion; Euclid's lemma"
 EXPLANATION = (
     "The real add_elements, double_element and _add_elements_nonunfied bodies (re-imported from /repo) are executed on "
     "polynomial proxies: the inputs are the generic extended representations (x1 z1, y1 z1, z1, x1 y1 z1), (x2 z2, "
